@@ -6,6 +6,8 @@
 package stime
 
 import (
+	"runtime"
+	"strings"
 	"time"
 
 	"github.com/tikv/client-go/v2/verifrt/sched"
@@ -148,7 +150,7 @@ func NewTicker(d Duration) *Ticker {
 	}
 	c := make(chan Time, 1)
 	t := &Ticker{C: c}
-	t.vt = sched.AddTimer(d, d, "ticker:"+d.String(), func(now int64) {
+	t.vt = sched.AddTimer(d, d, "ticker:"+callerName()+":"+d.String(), func(now int64) {
 		select {
 		case c <- sched.T0.Add(Duration(now)):
 		default:
@@ -175,3 +177,16 @@ func (t *Ticker) Reset(d Duration) {
 }
 
 func Tick(d Duration) <-chan Time { return NewTicker(d).C }
+
+// callerName returns the short name of the function that created a ticker (stable label).
+func callerName() string {
+	pc, _, _, ok := runtime.Caller(2)
+	if !ok {
+		return "?"
+	}
+	n := runtime.FuncForPC(pc).Name()
+	if i := strings.LastIndex(n, "/"); i >= 0 {
+		n = n[i+1:]
+	}
+	return n
+}
